@@ -1,52 +1,293 @@
 """Table translator (engine E7): regenerates coq/<Comp>/Gen_*.v from the repository's source
-text on every run.  Small on purpose; it is part of the trusted base.  A table that cannot be
-located raises TieBroken - an old file is never silently reused."""
+text on every run.  Small on purpose; it is part of the trusted base.
+
+It is STRICT: whatever it cannot read unambiguously raises TieBroken - an old file is never
+silently reused and nothing is ever guessed:
+  * comments are removed by a small lexer that knows string and character literals;
+  * a function is located by name AND parameter types, exactly one definition may match, its body is
+    found by brace matching, no preprocessor directive may occur inside the body and the definition
+    must not sit inside an #if/#ifdef region;
+  * a table must be the only initialiser of that (word-anchored) name in the region searched, the
+    name may otherwise only be indexed, a declared size [N] must equal the number of entries
+    (C zero-fill is not modelled), the element type must resolve (through the typedefs of the file and
+    of nstd/Base.hpp) to a builtin integer type and every entry must fit it; the width is written to
+    the Gen file next to the values;
+  * single constants (HMAC pads, hex digit string) must be the only assignment to their variable and
+    the pattern is anchored at the terminating `;`;
+  * Sha256::reset must consist of nothing but the known plain assignments (no control flow).
+tools/test_tables.py feeds it adversarial variants of the sources."""
 import os, re, sys
 sys.path.insert(0, os.path.join(os.path.dirname(os.path.abspath(__file__)), '..', 'lib'))
 from vf import TieBroken, REPO, COQ
 
 
+# ---- lexing ------------------------------------------------------------------------------------
+
+def lex(src):
+    """-> (clean, masked), both exactly as long as src.  clean: comments blanked (newlines kept),
+    literals kept.  masked: additionally the inside of string/character literals replaced by '_'
+    (for brace matching and occurrence counting)."""
+    clean, masked = [], []
+    i, n = 0, len(src)
+
+    def put(c, m=None):
+        clean.append(c)
+        masked.append(c if m is None else m)
+
+    while i < n:
+        c = src[i]
+        two = src[i:i + 2]
+        if two == '//':
+            while i < n and src[i] != '\n':
+                if src[i] == '\\' and src[i + 1:i + 2] == '\n':     # continued line comment
+                    put(' ')
+                    put('\n')
+                    i += 2
+                    continue
+                put(' ')
+                i += 1
+        elif two == '/*':
+            j = src.find('*/', i + 2)
+            if j < 0:
+                raise TieBroken('unterminated /* comment')
+            for ch in src[i:j + 2]:
+                put('\n' if ch == '\n' else ' ')
+            i = j + 2
+        elif c == '"' or c == "'":
+            if c == '"' and i > 0 and src[i - 1] == 'R' and not (i > 1 and (src[i - 2].isalnum() or src[i - 2] == '_')):
+                raise TieBroken('raw string literal: not supported by the translator')
+            put(c)
+            i += 1
+            while True:
+                if i >= n or src[i] == '\n':
+                    raise TieBroken('unterminated %s literal' % ('string' if c == '"' else 'character'))
+                if src[i] == '\\' and i + 1 < n and src[i + 1] != '\n':
+                    put(src[i], '_')
+                    put(src[i + 1], '_')
+                    i += 2
+                    continue
+                if src[i] == c:
+                    put(c)
+                    i += 1
+                    break
+                put(src[i], '_')
+                i += 1
+        else:
+            put(c)
+            i += 1
+    return ''.join(clean), ''.join(masked)
+
+
 def strip_comments(src):
-    src = re.sub(r'/\*.*?\*/', ' ', src, flags=re.S)
-    src = re.sub(r'//[^\n]*', ' ', src)
-    return src
+    return lex(src)[0]
 
 
-def read(rel):
-    p = os.path.join(REPO, rel)
+def read(rel, root=None):
+    p = os.path.join(root or REPO, rel)
     try:
         return open(p, encoding='latin-1').read()
     except OSError as e:
         raise TieBroken('cannot read %s: %s' % (rel, e))
 
 
+class Source:
+    def __init__(self, rel, root=None, text=None):
+        self.rel = rel
+        self.text = read(rel, root) if text is None else text
+        try:
+            self.clean, self.masked = lex(self.text)
+        except TieBroken as e:
+            raise TieBroken('%s: %s' % (rel, e))
+
+    def line(self, pos):
+        return self.text.count('\n', 0, pos) + 1
+
+
+DIRECTIVE = re.compile(r'^[ \t]*#[ \t]*(\w+)', flags=re.M)
+
+
+def cond_depth(src, pos):
+    """nesting depth of #if/#ifdef/#ifndef regions at pos (an #else/#elif branch counts as inside)."""
+    d = 0
+    for m in DIRECTIVE.finditer(src.masked, 0, pos):
+        if m.group(1) in ('if', 'ifdef', 'ifndef'):
+            d += 1
+        elif m.group(1) == 'endif':
+            d -= 1
+    return d
+
+
+def no_directives(src, a, b, what):
+    m = DIRECTIVE.search(src.masked, a, b)
+    if m:
+        raise TieBroken('%s (%s:%d): preprocessor directive #%s inside the region the translator reads' %
+                        (what, src.rel, src.line(m.start()), m.group(1)))
+
+
+def match_close(src, i, open_c, close_c):
+    """index of the bracket closing the one at i (on the masked text)."""
+    d = 0
+    for k in range(i, len(src.masked)):
+        ch = src.masked[k]
+        if ch == open_c:
+            d += 1
+        elif ch == close_c:
+            d -= 1
+            if d == 0:
+                return k
+    raise TieBroken('%s:%d: unbalanced %s' % (src.rel, src.line(i), open_c))
+
+
+def param_types(text):
+    out = []
+    for p in text.split(','):
+        p = ' '.join(p.split())
+        p = re.sub(r'\s*([*&\[\]()])\s*', r'\1', p)
+        p = re.sub(r'\(([*&])\w+\)', r'(\1)', p)                                         # byte (&result)[N] -> byte(&)[N]
+        q = re.sub(r'(?<![\w])(\w+)$', '', p) if re.search(r'[\s*&]\w+$', p) else p      # drop the parameter name
+        out.append(q.strip())
+    return [] if out == [''] else out
+
+
+def find_function(src, head_regex, want_params, what):
+    """The body (a, b) = positions of { and } of the ONE definition whose head matches head_regex and whose
+    parameter types are want_params.  Other overloads are ignored; two matching definitions, a
+    definition inside a conditional region or a directive inside the body raise."""
+    found = []
+    for m in re.finditer(head_regex + r'\s*\(', src.masked):
+        po = m.end() - 1
+        pc = match_close(src, po, '(', ')')
+        k = re.compile(r'\s*(?:const\s*)?\{').match(src.masked, pc + 1)
+        if not k:
+            continue                                           # a declaration or a call
+        if param_types(src.clean[po + 1:pc]) != want_params:
+            continue
+        a = k.end() - 1
+        found.append((m.start(), a, match_close(src, a, '{', '}')))
+    if len(found) != 1:
+        raise TieBroken('%s: %d definitions with parameters (%s) in %s, need exactly one' %
+                        (what, len(found), ', '.join(want_params), src.rel))
+    start, a, b = found[0]
+    if cond_depth(src, start) != 0:
+        raise TieBroken('%s (%s:%d) is defined inside an #if region' % (what, src.rel, src.line(start)))
+    no_directives(src, start, b, what)
+    return a, b
+
+
+# ---- literals and types ----------------------------------------------------------------------------
+
+ESC = {'n': 10, 'r': 13, 't': 9, '0': 0, '\\': 92, "'": 39, '"': 34, 'a': 7, 'b': 8, 'f': 12, 'v': 11, '?': 63}
+
+
 def c_int(tok):
     tok = tok.strip()
-    m = re.fullmatch(r"'(\\?.)'", tok)
-    if m:
-        c = m.group(1)
-        esc = {'\\n': 10, '\\r': 13, '\\t': 9, '\\0': 0, '\\\\': 92, "\\'": 39, '\\"': 34}
-        return esc[c] if c in esc else ord(c[-1])
-    tok = re.sub(r'[uUlL]+$', '', tok)
-    neg = tok.startswith('-')
-    if neg:
-        tok = tok[1:].strip()
-    v = int(tok, 16) if tok.lower().startswith('0x') else (int(tok, 8) if len(tok) > 1 and tok[0] == '0' and tok.isdigit() else int(tok))
-    return -v if neg else v
-
-
-def int_array(src, name_regex, rel):
-    """`<name>[..] = { a, b, ... };` -> list of ints"""
-    m = re.search(name_regex + r'\s*(?:\[[^\]]*\])?\s*=\s*\{(.*?)\}\s*;', strip_comments(src), flags=re.S)
+    if tok.startswith("'"):
+        m = re.fullmatch(r"'(?:\\(.)|([^\\']))'", tok, flags=re.S)
+        if not m:
+            raise ValueError('character literal %s not understood' % tok)
+        if m.group(1) is not None:
+            if m.group(1) not in ESC:
+                raise ValueError('unknown escape in %s' % tok)
+            return ESC[m.group(1)]
+        return ord(m.group(2))
+    m = re.fullmatch(r'(-?)\s*(0[xX][0-9a-fA-F]+|\d+)([uU]?[lL]{0,2}|[lL]{1,2}[uU])', tok)
     if not m:
-        raise TieBroken('initialiser %s not found in %s' % (name_regex, rel))
-    body = m.group(1)
-    toks = [t for t in re.split(r',', body) if t.strip()]
-    try:
-        return [c_int(t) for t in toks]
-    except (ValueError, KeyError) as e:
-        raise TieBroken('initialiser %s in %s: cannot evaluate (%s)' % (name_regex, rel, e))
+        raise ValueError('integer literal %r not understood' % tok)
+    d = m.group(2)
+    v = int(d, 16) if d[:2].lower() == '0x' else (int(d, 8) if len(d) > 1 and d[0] == '0' else int(d))
+    return -v if m.group(1) else v
 
+
+BUILTIN = {}
+for _names, _bits, _signed in (
+        (('unsigned char',), 8, False), (('char', 'signed char'), 8, True),
+        (('unsigned short', 'unsigned short int', 'short unsigned int'), 16, False), (('short', 'short int', 'signed short'), 16, True),
+        (('unsigned', 'unsigned int'), 32, False), (('int', 'signed', 'signed int'), 32, True),
+        (('unsigned long long', 'unsigned long long int', 'long long unsigned int', 'unsigned long', 'unsigned long int', 'long unsigned int'), 64, False),
+        (('long long', 'long long int', 'long', 'long int'), 64, True)):
+    for _n in _names:
+        BUILTIN[_n] = (_bits, _signed)
+
+
+def resolve_type(name, sources, what, depth=0):
+    """declared element type -> (bits, signed) on x86-64 LP64, through typedefs of the given sources."""
+    name = ' '.join(w for w in name.split() if w not in ('static', 'const', 'constexpr', 'volatile', 'register'))
+    if name in BUILTIN:
+        return BUILTIN[name]
+    if depth > 4 or not re.fullmatch(r'\w+', name):
+        raise TieBroken('%s: element type `%s` not understood' % (what, name))
+    res = set()
+    for s in sources:
+        for m in re.finditer(r'\btypedef\s+([\w\s]+?)\s+%s\s*;' % re.escape(name), s.masked):
+            res.add(resolve_type(m.group(1), sources, what, depth + 1))
+        if re.search(r'^[ \t]*#[ \t]*define\s+%s\b' % re.escape(name), s.masked, flags=re.M):
+            raise TieBroken('%s: element type `%s` is a macro' % (what, name))
+    if len(res) != 1:
+        raise TieBroken('%s: element type `%s` resolves to %d different builtin types' % (what, name, len(res)))
+    return res.pop()
+
+
+def fits(v, ty):
+    bits, signed = ty
+    return (-(1 << (bits - 1)) <= v < (1 << (bits - 1))) if signed else (0 <= v < (1 << bits))
+
+
+def int_array(src, a, b, name, typedef_sources, what):
+    """the one `<type> <name>[N?] = { a, b, ... };` between positions a and b -> (values, (bits, signed))"""
+    nm = r'(?<![\w:])' + re.escape(name) + r'\b'
+    occ = list(re.finditer(nm, src.masked[a:b]))
+    inits = [m for m in occ if re.match(r'\s*(?:\[[^\]]*\])?\s*=?\s*\{', src.masked[a + m.end():b])]
+    if len(inits) != 1:
+        raise TieBroken('%s: %d initialisers of `%s` in %s, need exactly one' % (what, len(inits), name, src.rel))
+    at = a + inits[0].start()
+    m = re.compile(nm + r'\s*\[([^\]]*)\]\s*=\s*\{([^{}]*)\}\s*;').match(src.clean, at)
+    if not m or m.end() > b:
+        raise TieBroken('%s (%s:%d): initialiser of `%s` is not of the form  name[..] = { .. };' % (what, src.rel, src.line(at), name))
+    for o in occ:
+        if o is not inits[0] and not re.match(r'\s*\[', src.masked[a + o.end():b]):
+            raise TieBroken('%s (%s:%d): `%s` is used other than by indexing' % (what, src.rel, src.line(a + o.start()), name))
+    if cond_depth(src, at) != 0:
+        raise TieBroken('%s (%s:%d): `%s` is initialised inside an #if region' % (what, src.rel, src.line(at), name))
+    no_directives(src, at, m.end(), what)
+    # declared type = the text between the previous ; { } and the name
+    k = max(src.masked.rfind(ch, 0, at) for ch in ';{}')
+    ty = resolve_type(src.clean[k + 1:at], typedef_sources, what)
+    toks = m.group(2).split(',')
+    if toks and not toks[-1].strip():
+        toks.pop()                                             # one trailing comma is C
+    try:
+        vals = [c_int(t) for t in toks]
+    except ValueError as e:
+        raise TieBroken('%s (%s:%d): cannot evaluate an entry of `%s`: %s' % (what, src.rel, src.line(at), name, e))
+    if m.group(1).strip():
+        try:
+            decl = c_int(m.group(1))
+        except ValueError as e:
+            raise TieBroken('%s: declared size of `%s`: %s' % (what, name, e))
+        if decl != len(vals):
+            raise TieBroken('%s (%s:%d): `%s` declares %d elements, the initialiser has %d (zero-fill / excess is not modelled)' %
+                            (what, src.rel, src.line(at), name, decl, len(vals)))
+    for v in vals:
+        if not fits(v, ty):
+            raise TieBroken('%s (%s:%d): entry %d of `%s` does not fit its element type (%d bit %s)' %
+                            (what, src.rel, src.line(at), v, name, ty[0], 'signed' if ty[1] else 'unsigned'))
+    return vals, ty
+
+
+def sole_assignment(src, a, b, var, strict_regex, what):
+    """`var` must be assigned exactly once between a and b, by a statement matching strict_regex (anchored at `;`)."""
+    loose = list(re.finditer(r'(?<![\w.>])%s\s*(?:\[[^\]]*\]\s*)?(?:<<|>>|[-+*/%%^|&])?=(?!=)' % re.escape(var), src.masked[a:b]))
+    incs = re.findall(r'(?:\+\+|--)\s*%s\b|(?<![\w.>])%s\s*(?:\[[^\]]*\]\s*)?(?:\+\+|--)' % (re.escape(var), re.escape(var)), src.masked[a:b])
+    if len(loose) != 1 or incs:
+        raise TieBroken('%s: `%s` is assigned %d times in %s, need exactly one plain assignment' % (what, var, len(loose) + len(incs), src.rel))
+    at = a + loose[0].start()
+    m = re.compile(strict_regex).match(src.clean, at)
+    if not m or m.end() > b:
+        raise TieBroken('%s (%s:%d): assignment to `%s` is not of the expected form' % (what, src.rel, src.line(at), var))
+    return m
+
+
+# ---- output ------------------------------------------------------------------------------------------
 
 def write_v(comp, fname, header, defs):
     """defs: list of (name, coq type, coq term text)"""
@@ -72,74 +313,191 @@ def zlist(xs, per=8):
     return '[' + ';\n   '.join(rows) + ']'
 
 
+def unsigned_bits(ty, what):
+    if ty[1]:
+        raise TieBroken('%s: signed element type (the models hold these tables as unsigned words)' % what)
+    return str(ty[0])
+
+
 # ---- SHA-256 --------------------------------------------------------------------------------
 
-def gen_sha():
-    rel = 'src/Crypto/Sha256.cpp'
-    src = read(rel)
-    K = int_array(src, r'Sha256::Private::K', rel)
-    body = strip_comments(src)
-    m = re.search(r'void\s+Sha256::reset\s*\(\s*\)\s*\{(.*?)\n\}', body, flags=re.S)
-    if not m:
-        raise TieBroken('Sha256::reset not found')
-    st = dict((int(i), c_int(v)) for i, v in re.findall(r'state\s*\[\s*(\d+)\s*\]\s*=\s*(0x[0-9a-fA-F]+|\d+)\s*;', m.group(1)))
+LIT = r'(0[xX][0-9a-fA-F]+[uUlL]*|\d+[uUlL]*)'
+
+
+def read_sha(root=None):
+    cpp = Source('src/Crypto/Sha256.cpp', root)
+    hpp = Source('include/nstd/Crypto/Sha256.hpp', root)
+    base = Source('include/nstd/Base.hpp', root)
+    tds = [cpp, hpp, base]
+    K, kty = int_array(cpp, 0, len(cpp.clean), 'Sha256::Private::K', tds, 'SHA-256 round constants')
+    # reset(): nothing but  CSha256 *p = this;  p->state[i] = <literal>;  p->count = 0;
+    a, b = find_function(cpp, r'\bvoid\s+Sha256::reset', [], 'Sha256::reset')
+    st = {}
+    for stmt in cpp.clean[a + 1:b].split(';'):
+        s = ' '.join(stmt.split())
+        if not s or re.fullmatch(r'CSha256 ?\* ?p = this', s) or re.fullmatch(r'p ?-> ?count = 0', s):
+            continue
+        m = re.fullmatch(r'p ?-> ?state ?\[ ?(\d+) ?\] = ' + LIT, s)
+        if not m:
+            raise TieBroken('Sha256::reset: statement `%s` is not one of the plain assignments the translator knows' % s[:60])
+        if int(m.group(1)) in st:
+            raise TieBroken('Sha256::reset: state[%s] is assigned twice' % m.group(1))
+        st[int(m.group(1))] = c_int(m.group(2))
     if sorted(st) != list(range(8)):
         raise TieBroken('Sha256::reset: could not read the 8 initial state words (got indices %s)' % sorted(st))
     H0 = [st[i] for i in range(8)]
-    hdr = read('include/nstd/Crypto/Sha256.hpp')
-    pads = re.findall(r'hashKey\s*\[\s*i\s*\]\s*\^\s*(0x[0-9a-fA-F]+)', strip_comments(hdr))
-    mo = re.search(r'oKeyPad\s*\[\s*i\s*\]\s*=\s*hashKey\s*\[\s*i\s*\]\s*\^\s*(0x[0-9a-fA-F]+)', strip_comments(hdr))
-    mi = re.search(r'iKeyPad\s*\[\s*i\s*\]\s*=\s*hashKey\s*\[\s*i\s*\]\s*\^\s*(0x[0-9a-fA-F]+)', strip_comments(hdr))
-    if not (mo and mi):
-        raise TieBroken('Sha256::hmac: pad constants not found')
-    return write_v('Sha', 'Gen_Sha.v', rel + ' and include/nstd/Crypto/Sha256.hpp', [
-        ('gen_K', 'list Z', zlist(K)),
-        ('gen_H0', 'list Z', zlist(H0)),
-        ('gen_opad', 'Z', str(c_int(mo.group(1)))),
-        ('gen_ipad', 'Z', str(c_int(mi.group(1)))),
+    ms = re.findall(r'(?<![\w])([\w ]+?)\s+state\s*\[\s*8\s*\]\s*;', hpp.masked)
+    if len(ms) != 1:
+        raise TieBroken('Sha256.hpp: %d declarations `<type> state[8];`, need exactly one' % len(ms))
+    hty = resolve_type(ms[0], tds, 'Sha256::state')
+    for v in H0:
+        if not fits(v, hty):
+            raise TieBroken('Sha256::reset: %d does not fit the type of state[]' % v)
+    # hmac(): the two pad constants
+    a, b = find_function(hpp, r'\bstatic\s+void\s+hmac', ['const byte*', 'usize', 'const byte*', 'usize', 'byte(&)[digestSize]'], 'Sha256::hmac')
+    pads = {}
+    for var in ('oKeyPad', 'iKeyPad'):
+        m = sole_assignment(hpp, a, b, var, var + r'\s*\[\s*i\s*\]\s*=\s*hashKey\s*\[\s*i\s*\]\s*\^\s*' + LIT + r'\s*;', 'Sha256::hmac')
+        pads[var] = c_int(m.group(1))
+        if not 0 <= pads[var] <= 255:
+            raise TieBroken('Sha256::hmac: pad constant %d is not a byte' % pads[var])
+    return {'K': K, 'K_type': kty, 'H0': H0, 'H0_type': hty, 'opad': pads['oKeyPad'], 'ipad': pads['iKeyPad'],
+            'header': cpp.rel + ' and ' + hpp.rel}
+
+
+def gen_sha():
+    t = read_sha()
+    return write_v('Sha', 'Gen_Sha.v', t['header'], [
+        ('gen_K', 'list Z', zlist(t['K'])),
+        ('gen_K_bits', 'Z', unsigned_bits(t['K_type'], 'K')),
+        ('gen_H0', 'list Z', zlist(t['H0'])),
+        ('gen_H0_bits', 'Z', unsigned_bits(t['H0_type'], 'state')),
+        ('gen_opad', 'Z', str(t['opad'])),
+        ('gen_ipad', 'Z', str(t['ipad'])),
     ])
 
 
 # ---- Codec (C18): base64 decode table, hex digit string, UTF-8 offsets ------------------------
 
+def read_codec(root=None):
+    cpp = Source('src/String.cpp', root)
+    uni = Source('include/nstd/Unicode.hpp', root)
+    base = Source('include/nstd/Base.hpp', root)
+    a, b = find_function(cpp, r'\bString\s+String::fromBase64', ['const String&'], 'String::fromBase64')
+    b64, bty = int_array(cpp, a, b, 'base64de', [cpp, base], 'String::fromBase64')
+    a, b = find_function(cpp, r'\bString\s+String::fromHex', ['const byte*', 'usize'], 'String::fromHex')
+    m = sole_assignment(cpp, a, b, 'hex', r'hex\s*=\s*"([^"\\]*)"\s*;', 'String::fromHex')
+    if not re.search(r'\bconst\s+char\s*\*\s*$', cpp.clean[a:m.start()]):
+        raise TieBroken('String::fromHex: `hex` is not declared as  const char* hex = "..";')
+    for o in re.finditer(r'\bhex\b', cpp.masked[a:b]):
+        if a + o.start() != m.start() and not re.match(r'\s*\[', cpp.masked[a + o.end():b]):
+            raise TieBroken('String::fromHex: `hex` is used other than by indexing')
+    hexd = [ord(c) for c in m.group(1)]
+    a, b = find_function(uni, r'\bstatic\s+uint32\s+fromString', ['const char*', 'usize'], 'Unicode::fromString')
+    offs, oty = int_array(uni, a, b, 'utf8Offsets', [uni, base], 'Unicode::fromString')
+    return {'base64de': b64, 'base64de_type': bty, 'hexdigits': hexd, 'utf8Offsets': offs, 'utf8Offsets_type': oty,
+            'header': cpp.rel + ' and ' + uni.rel}
+
+
 def gen_codec():
-    rel = 'src/String.cpp'
-    src = strip_comments(read(rel))
-    m = re.search(r'String\s+String::fromBase64\s*\([^)]*\)\s*\{(.*?)\n\}', src, flags=re.S)
-    if not m:
-        raise TieBroken('String::fromBase64 not found in ' + rel)
-    b64 = int_array(m.group(1), r'base64de', rel)
-    m = re.search(r'String\s+String::fromHex\s*\([^)]*\)\s*\{(.*?)\n\}', src, flags=re.S)
-    if not m:
-        raise TieBroken('String::fromHex not found in ' + rel)
-    mh = re.search(r'\bhex\s*=\s*"([^"\\]*)"\s*;', m.group(1))
-    if not mh:
-        raise TieBroken('String::fromHex: digit string literal not found')
-    hexd = [ord(c) for c in mh.group(1)]
-    rel2 = 'include/nstd/Unicode.hpp'
-    offs = int_array(read(rel2), r'utf8Offsets', rel2)
-    return write_v('Codec', 'Gen_Codec.v', rel + ' and ' + rel2, [
-        ('gen_base64de', 'list Z', zlist(b64, 16)),
-        ('gen_hexdigits', 'list Z', zlist(hexd, 16)),
-        ('gen_utf8Offsets', 'list Z', zlist(offs)),
+    t = read_codec()
+    return write_v('Codec', 'Gen_Codec.v', t['header'], [
+        ('gen_base64de', 'list Z', zlist(t['base64de'], 16)),
+        ('gen_base64de_bits', 'Z', unsigned_bits(t['base64de_type'], 'base64de')),
+        ('gen_hexdigits', 'list Z', zlist(t['hexdigits'], 16)),
+        ('gen_utf8Offsets', 'list Z', zlist(t['utf8Offsets'])),
+        ('gen_utf8Offsets_bits', 'Z', unsigned_bits(t['utf8Offsets_type'], 'utf8Offsets')),
     ])
 
 
 # ---- Str (C06): the two case-mapping tables of String.cpp --------------------------------------
 
-def gen_str():
-    rel = 'src/String.cpp'
-    src = strip_comments(read(rel))
-    defs = []
-    for cname, vname in (('lowerCaseMap', 'gen_lowerCaseMap'), ('upperCaseMap', 'gen_upperCaseMap')):
-        m = re.search(r'char\s+String::' + cname + r'\s*\[\s*0x101\s*\]\s*=\s*"((?:\\x[0-9a-fA-F]{2})*)"\s*;', src)
-        if not m:
-            raise TieBroken('String::%s[0x101] = "\\x.." not found in %s' % (cname, rel))
+def read_str(root=None):
+    src = Source('src/String.cpp', root)
+    out = {'header': src.rel}
+    for cname in ('lowerCaseMap', 'upperCaseMap'):
+        ms = list(re.finditer(r'(?<![\w])String::' + cname + r'\s*\[', src.masked))
+        if len(ms) != 1:
+            raise TieBroken('String::%s: %d definitions in %s, need exactly one' % (cname, len(ms), src.rel))
+        at = ms[0].start()
+        m = re.compile(r'String::' + cname + r'\s*\[\s*0x101\s*\]\s*=\s*"((?:\\x[0-9a-fA-F]{2})*)"\s*;').match(src.clean, at)
+        if not m or not re.search(r'(?<![\w])char\s+$', src.clean[:at]):
+            raise TieBroken('char String::%s[0x101] = "\\x.."; not found in %s' % (cname, src.rel))
+        if cond_depth(src, at) != 0:
+            raise TieBroken('String::%s is defined inside an #if region' % cname)
         vals = [int(h, 16) for h in re.findall(r'\\x([0-9a-fA-F]{2})', m.group(1))]
         if len(vals) != 256:
             raise TieBroken('String::%s has %d entries, expected 256' % (cname, len(vals)))
-        defs.append((vname, 'list Z', zlist(vals, 16)))
-    return write_v('Str', 'Gen_Str.v', rel, defs)
+        out[cname] = vals
+    return out
+
+
+def gen_str():
+    t = read_str()
+    return write_v('Str', 'Gen_Str.v', t['header'],
+                   [('gen_' + c, 'list Z', zlist(t[c], 16)) for c in ('lowerCaseMap', 'upperCaseMap')])
+
+
+# ---- Hash (C02): the default capacity of the three hash containers, the multiplier of hash(const String&) ----
+
+def read_hash(root=None):
+    """The bucket count a default- or copy-constructed HashMap/HashSet/PoolMap starts with: the literal in the
+    mem-initialiser `capacity(<n>)` of `X()` and `X(const X& other)`.  The model has ONE default_capacity, so the
+    five constructors must agree.  Also the multiplier used (three times) by hash(const String&)."""
+    caps = {}
+    rels = []
+    for cls in ('HashMap', 'HashSet', 'PoolMap'):
+        src = Source('include/nstd/%s.hpp' % cls, root)
+        rels.append(src.rel)
+        ctors = [('default', r'(?<![\w~])%s\s*\(\s*\)\s*:' % cls)]
+        if cls != 'PoolMap':
+            ctors.append(('copy', r'(?<![\w~])%s\s*\(\s*const\s+%s\s*&\s*\w+\s*\)\s*:' % (cls, cls)))
+        for what, rx in ctors:
+            ms = list(re.finditer(rx, src.masked))
+            if len(ms) != 1:
+                raise TieBroken('%s: %d %s constructors with a mem-initialiser list in %s, need exactly one' % (cls, len(ms), what, src.rel))
+            a = ms[0].end()
+            b = src.masked.find('{', a)
+            if b < 0:
+                raise TieBroken('%s %s constructor: no body' % (cls, what))
+            no_directives(src, ms[0].start(), b, '%s %s constructor' % (cls, what))
+            inits = re.findall(r'(?<![\w])capacity\s*\(([^()]*)\)', src.clean[a:b])
+            if len(inits) != 1 or not re.fullmatch(r'\s*\d+[uUlL]*\s*', inits[0]):
+                raise TieBroken('%s %s constructor (%s:%d): expected exactly one mem-initialiser capacity(<integer literal>), found %r'
+                                % (cls, what, src.rel, src.line(a), inits))
+            caps['%s %s' % (cls, what)] = c_int(inits[0])
+    vals = sorted(set(caps.values()))
+    if len(vals) != 1:
+        raise TieBroken('default capacities differ between constructors (the model has one default_capacity): %r' % caps)
+    s = Source('include/nstd/String.hpp', root)
+    a, b = find_function(s, r'\binline\s+usize\s+hash', ['const String&'], 'hash(const String&)')
+    muls = re.findall(r'\bhashCode\s*\*=\s*(\d+)\s*;', s.clean[a:b])
+    if len(muls) != 3 or len(set(muls)) != 1:
+        raise TieBroken('hash(const String&): expected three statements hashCode *= <one literal>; found %r' % muls)
+    rels.append(s.rel)
+    # hash(const void* v) {return (usize)v >> (sizeof(void*) / A + B);}   with 8-byte pointers (the harness is built for x86-64)
+    base = Source('include/nstd/Base.hpp', root)
+    a, b = find_function(base, r'\binline\s+usize\s+hash', ['const void*'], 'hash(const void*)')
+    m = re.fullmatch(r'\{\s*return\s*\(\s*usize\s*\)\s*v\s*>>\s*\(\s*sizeof\s*\(\s*void\s*\*\s*\)\s*/\s*(\d+)\s*\+\s*(\d+)\s*\)\s*;\s*\}', base.clean[a:b + 1])
+    if not m or int(m.group(1)) == 0:
+        raise TieBroken('hash(const void*): body is not  return (usize)v >> (sizeof(void*) / <n> + <m>);  but %r' % base.clean[a:b + 1])
+    rels.append(base.rel)
+    ints = {}
+    for ty in ('int8', 'uint8', 'int16', 'uint16', 'int32', 'uint32', 'int64', 'uint64'):
+        a, b = find_function(base, r'\binline\s+usize\s+hash', [ty], 'hash(%s)' % ty)
+        if not re.fullmatch(r'\{\s*return\s*\(\s*usize\s*\)\s*v\s*;\s*\}', base.clean[a:b + 1]):
+            raise TieBroken('hash(%s): body is not  return (usize)v;  but %r (the model uses v mod 2^64)' % (ty, base.clean[a:b + 1]))
+    return {'default_capacity': vals[0], 'str_hash_mult': int(muls[0]), 'ptr_hash_shift': 8 // int(m.group(1)) + int(m.group(2)),
+            'header': ', '.join(rels)}
+
+
+def gen_hash():
+    t = read_hash()
+    return write_v('Hash', 'Gen_Hash.v', t['header'], [
+        ('gen_default_capacity', 'Z', str(t['default_capacity'])),
+        ('gen_str_hash_mult', 'Z', str(t['str_hash_mult'])),
+        ('gen_ptr_hash_shift', 'Z', str(t['ptr_hash_shift'])),
+    ])
 
 
 if __name__ == '__main__':
